@@ -96,14 +96,28 @@ def run(harnesses, timeout_each=1500):
                     os.utime(os.path.join(root, fn), (now, now))
                 except OSError:
                     pass
-        for f in reg['files']:
-            text = open(os.path.join(KANI_DIR, f['harness_file'])).read()
-            if f['mode'] == 'append':
-                with open(os.path.join(scratch, f['target']), 'a') as fh:
-                    fh.write('\n' + text)
-            else:
-                with open(os.path.join(scratch, f['target']), 'w') as fh:
+        # appended harness modules: the original text of each target is kept so that, when the library no longer builds with ALL
+        # harness modules appended (a harness that names a renamed private field, say), the modules can be retried one file at a time
+        # and only the harnesses of the file that does not compile are undecided
+        orig_text = {}
+        append_files = [f for f in reg['files'] if f['mode'] == 'append']
+
+        def write_appends(active):
+            for tgt in set(f['target'] for f in append_files):
+                if tgt not in orig_text:
+                    orig_text[tgt] = open(os.path.join(scratch, tgt)).read()
+                text = orig_text[tgt]
+                for f in append_files:
+                    if f['target'] == tgt and f['harness_file'] in active:
+                        text += '\n' + open(os.path.join(KANI_DIR, f['harness_file'])).read()
+                with open(os.path.join(scratch, tgt), 'w') as fh:
                     fh.write(text)
+
+        write_appends(set(f['harness_file'] for f in append_files))
+        for f in reg['files']:
+            if f['mode'] != 'append':
+                with open(os.path.join(scratch, f['target']), 'w') as fh:
+                    fh.write(open(os.path.join(KANI_DIR, f['harness_file'])).read())
         target_dir = os.environ.get('GV_KANI_TARGET', os.path.join(HERE, 'gen', 'kani_target'))
         os.makedirs(target_dir, exist_ok=True)
         env = dict(os.environ, CARGO_NET_OFFLINE='true', CARGO_TARGET_DIR=target_dir)
@@ -127,19 +141,33 @@ def run(harnesses, timeout_each=1500):
             groups.setdefault((h.get('tests', False), h.get('features', '')), []).append(h)
         # which copied test file defines which harness (a compile error in one test file must not take the others down)
         file_of = {}
+        append_of = {}      # harness name -> appended harness file that defines it (directly or through a macro invocation naming it)
         for f in reg['files']:
-            if f['mode'] != 'append':
-                txt = open(os.path.join(KANI_DIR, f['harness_file'])).read()
-                for h in harnesses:
-                    if re.search(r'\bfn\s+%s\s*\(' % re.escape(h['name']), txt):
+            txt = open(os.path.join(KANI_DIR, f['harness_file'])).read()
+            for h in harnesses:
+                if re.search(r'\bfn\s+%s\s*\(' % re.escape(h['name']), txt) or re.search(r'!\(\s*%s\s*,' % re.escape(h['name']), txt):
+                    if f['mode'] != 'append':
                         file_of[h['name']] = f['target']
+                    else:
+                        append_of[h['name']] = f['harness_file']
         work = list(groups.items())
         retried = set()
         while work:
             (is_tests, feats), hs = work.pop(0)
             only_file = None
-            if isinstance(is_tests, tuple):          # retry of one test file: (True, target)
-                is_tests, only_file = is_tests
+            only_append = None
+            if isinstance(is_tests, tuple):          # retry of one test file: (True, target) / of one appended module: (False, harness_file)
+                if is_tests[0]:
+                    is_tests, only_file = is_tests
+                else:
+                    is_tests, only_append = is_tests
+            # library harnesses see only their own appended module on a retry; test harnesses always build against the plain library
+            # plus all modules (they do not depend on them)
+            write_appends(set([only_append]) if only_append else set(f['harness_file'] for f in append_files))
+            if only_append:
+                now = time.time()
+                for tgt in set(f['target'] for f in append_files):
+                    os.utime(os.path.join(scratch, tgt), (now, now))
             hidden = []
             if only_file:
                 for f in reg['files']:
@@ -218,6 +246,12 @@ def run(harnesses, timeout_each=1500):
                 for tf in files_here:
                     work.append((((True, tf), feats), [h for h in hs if file_of.get(h['name']) == tf]))
                 continue
+            mods_here = sorted(set(append_of.get(h['name']) for h in hs if append_of.get(h['name'])))
+            if (not is_tests) and not built and only_append is None and len(append_files) > 1 and (feats, tuple(mods_here)) not in retried:
+                retried.add((feats, tuple(mods_here)))
+                for mf in mods_here:
+                    work.append((((False, mf), feats), [h for h in hs if append_of.get(h['name']) == mf]))
+                continue
             for h in hs:
                 r = seen.get(h['name'])
                 if r is None:
@@ -231,6 +265,23 @@ def run(harnesses, timeout_each=1500):
         except Exception:
             pass
         shutil.rmtree(scratch, ignore_errors=True)
+    # The step/base contracts of the raw-pointer iterators cover next() and the constructors only.  Iterator's other methods are
+    # DEFAULT methods defined through next(); an OVERRIDE of one of them in src/archetype/iter.rs (nth, size_hint, fold, ..) is a new
+    # function without a contract: the properties served by the step harnesses are then undecided (never an alarm), unless a bounded
+    # harness exhibits a counterexample.
+    step = [h for h in harnesses if h['name'].startswith('iter_full_step_')]
+    if step:
+        try:
+            txt = open(os.path.join(REPO, 'src', 'archetype', 'iter.rs')).read()
+            fns = sorted(set(re.findall(r'\bfn\s+(\w+)', txt)) - {'next'})
+        except OSError as e:
+            fns = ['<iter.rs unreadable: %r>' % e]
+        if fns:
+            results.append({'status': 'UNDECIDED', 'harness': 'iter_rs_uncontracted_methods', 'backend': 'syntactic scan', 'time_s': None,
+                            'failed_checks': [], 'props': sorted(set(p for h in step for p in h['props'])), 'bound': '-', 'counts_as': 'bounded',
+                            'what': 'src/archetype/iter.rs defines iterator methods besides next(): %s' % ', '.join(fns), 'cmd': 'scan',
+                            'output_tail': 'src/archetype/iter.rs defines %s: only next() is under the step contract; an overridden Iterator '
+                                           'method has no contract' % ', '.join(fns)})
     for r in results:
         r['wall_s_total'] = round(time.time() - t0, 1)
     return results
